@@ -348,6 +348,39 @@ func runEdits(init []Member, ops []EditAct) (obs EditObs, path []string, panicke
 	return EditObs{List: members(ts), Err: lastErr, Frozen: frozen}, path, nil
 }
 
+// editOut is what an edit edge RETURNS besides the successor list (the edge's `out` field; vh.Edge
+// only carries from/act/to, whose shapes are identical so that vh.LoadEdges can chain them).
+type editOut struct {
+	Out struct {
+		Err    bool `json:"err"`
+		Frozen bool `json:"frozen"`
+	} `json:"out"`
+}
+
+// loadEditOuts reads the `out` field of every edge, index-aligned with vh.LoadEdges.
+func loadEditOuts(path string) []editOut {
+	f, err := os.Open(path)
+	vh.Must(err)
+	defer f.Close()
+	var outs []editOut
+	sc := bufio.NewScanner(f)
+	sc.Buffer(make([]byte, 1<<20), 1<<28)
+	for sc.Scan() {
+		ln := bytes.TrimSpace(sc.Bytes())
+		if len(ln) == 0 {
+			continue
+		}
+		if !bytes.Contains(ln, []byte(`"out":`)) {
+			vh.Must(fmt.Errorf("edit edge %d has no out field (spec/harness drift)", len(outs)))
+		}
+		var o editOut
+		vh.Must(json.Unmarshal(ln, &o))
+		outs = append(outs, o)
+	}
+	vh.Must(sc.Err())
+	return outs
+}
+
 func edits(args []string) {
 	fs := flag.NewFlagSet("edits", flag.ExitOnError)
 	edges := fs.String("edges", "", "")
@@ -355,18 +388,31 @@ func edits(args []string) {
 	fs.Parse(args)
 	g, err := vh.LoadEdges(*edges)
 	vh.Must(err)
+	outs := loadEditOuts(*edges)
+	if len(outs) != len(g.Edges) {
+		vh.Must(fmt.Errorf("edit edges: %d out fields for %d edges", len(outs), len(g.Edges)))
+	}
 	res := vh.NewResult()
 	var init EditState
 	vh.Must(json.Unmarshal(g.Edges[0].From, &init))
+	// the spec's full answer for edge i: successor list + returned error + copy-on-write flag
+	wantOf := func(i int) EditObs {
+		var to EditState
+		vh.Must(json.Unmarshal(g.Edges[i].To, &to))
+		if to.List == nil {
+			to.List = []Member{}
+		}
+		return EditObs{List: to.List, Err: outs[i].Out.Err, Frozen: outs[i].Out.Frozen}
+	}
 	// admissible successors per (source, action): Level-2-only keys give Insert two branches
 	type key struct{ from, act string }
 	adm := map[key]map[string]bool{}
-	for _, e := range g.Edges {
+	for i, e := range g.Edges {
 		k := key{vh.Canon(e.From), vh.Canon(e.Act)}
 		if adm[k] == nil {
 			adm[k] = map[string]bool{}
 		}
-		adm[k][vh.Canon(e.To)] = true
+		adm[k][canonOf(wantOf(i))] = true
 	}
 	done := map[key]bool{}
 	for i, e := range g.Edges {
@@ -376,6 +422,7 @@ func edits(args []string) {
 			continue
 		}
 		done[k] = true
+		res.Count("edit_cases", 1)
 		pathRaw, ok := g.Path(i)
 		if !ok {
 			res.Inconcl(fmt.Sprintf("edge %d: source not reachable in BFS tree", i))
@@ -388,12 +435,12 @@ func edits(args []string) {
 			ops = append(ops, a)
 		}
 		got, states, p := runEdits(init.List, ops)
-		res.Executed++
 		if p != nil {
 			if s, ok := p.(string); ok && strings.HasPrefix(s, "harness:") {
 				res.Inconcl(s)
 				continue
 			}
+			res.Executed++
 			res.AddMismatch(vh.Mismatch{Kind: "panic", Case: ops[len(ops)-1], Path: ops[:len(ops)-1], Act: ops[len(ops)-1], Detail: fmt.Sprint(p)})
 			continue
 		}
@@ -406,17 +453,38 @@ func edits(args []string) {
 			res.Count("source_not_reached", 1)
 			continue
 		}
-		if !adm[k][canonOf(got)] {
-			var to any
-			json.Unmarshal(e.To, &to)
-			res.AddMismatch(vh.Mismatch{Kind: "edit", Case: ops[len(ops)-1], Path: ops[:len(ops)-1], Act: ops[len(ops)-1],
-				Want: to, Got: got, Detail: fmt.Sprintf("initial members %d", len(init.List))})
+		res.Executed++
+		res.Count("edit_depth_max", max(0, int64(len(ops))-res.Counters["edit_depth_max"]))
+		if len(adm[k]) > 1 {
+			res.Count("edit_cases_with_choice", 1)
 		}
+		if !adm[k][canonOf(got)] {
+			res.AddMismatch(vh.Mismatch{Kind: "edit", Case: ops[len(ops)-1], Path: ops[:len(ops)-1], Act: ops[len(ops)-1],
+				Want: wantOf(i), Got: got, Detail: fmt.Sprintf("initial members %d", len(init.List))})
+		}
+		last := ops[len(ops)-1]
 		if got.Err {
 			res.Count("edits_refused", 1)
 		}
-		if len(from.List) == 32 && len(got.List) == 32 && !got.Err && ops[len(ops)-1].Op == "Insert" {
-			res.Count("edits_at_capacity", 1)
+		if len(ops) > 1 {
+			res.Count("edits_from_non_initial_state", 1)
+		}
+		if last.Op == "Insert" && !got.Err {
+			if len(from.List) == 32 && len(got.List) == 32 {
+				res.Count("edits_at_capacity", 1)
+			}
+			if len(got.List) > len(from.List) {
+				res.Count("edits_insert_new", 1)
+			} else {
+				res.Count("edits_insert_update_or_evict", 1)
+			}
+		}
+		if last.Op == "Delete" {
+			if len(got.List) < len(from.List) {
+				res.Count("edits_delete_present", 1)
+			} else {
+				res.Count("edits_delete_absent", 1)
+			}
 		}
 		if i%499 == 0 {
 			res.Sample(map[string]any{"init_members": len(init.List), "ops": ops, "got": got})
